@@ -198,6 +198,14 @@ func init() {
 					return opts[i].(structure), st.Field(i).Type().Underlying().(*types.Struct)
 				}
 			}
+			// without a tag the section name is the field name, case-insensitively
+			for i := 0; i < st.NumFields(); i++ {
+				if !strings.Contains(st.Tag(i), "gcfg:") && st.Field(i).Exported() && strings.EqualFold(st.Field(i).Name(), tag) {
+					if fs, ok := st.Field(i).Type().Underlying().(*types.Struct); ok {
+						return opts[i].(structure), fs
+					}
+				}
+			}
 			return nil, nil
 		}
 		section := ""
